@@ -136,6 +136,16 @@ fn decode_parts(data: &[u8], raw: bool) -> Result<DecodedParts, DataDecodingErro
     })
 }
 
+/// Verification hook: decoded bytes together with the `(output offset, ECI number)` spans
+/// that [decode_data] and [decode_str] compute but do not expose.
+#[cfg(feature = "verif_hooks")]
+pub(crate) fn decode_with_eci_spans(
+    data: &[u8],
+) -> Result<(Vec<u8>, Vec<(usize, u32)>), DataDecodingError> {
+    let parts = decode_parts(data, true)?;
+    Ok((parts.output, parts.eci_spans))
+}
+
 /// Decode the data codewords of a Data Matrix as a string.
 ///
 /// This function has some ECI support. Be aware that
